@@ -5,6 +5,7 @@ import PdshVerif.Pcp.Feed
 import PdshVerif.Pcp.Spec
 import PdshVerif.Pcp.Links
 import PdshVerif.Pcp.MultiConfine
+import PdshVerif.Pcp.Allocbuf
 
 /-! # C12  A copy peer can only write inside the destination it was given
 
@@ -23,6 +24,10 @@ initial file system and every option setting.
                            receiver does exactly the same (file system, replies, paths), hence is confined:
                            the proposed repair changes nothing else.
 * `reader_in_bounds`     -- no index leaves `buf[BUFSIZ]`, `namebuf[need]`, `bp->buf[cnt]`.
+* `reader_in_bounds_any_blksize`
+                         -- the same with `cnt` as `_allocbuf` computes it from ANY `st_blksize` the file system reports
+                           (Pcp/Allocbuf.lean: `allocbuf_cntOk`); the check scripts `st_blksize` (512 ... 1 MiB, 9216, 12288)
+                           and takes the model's `cnt` from `allocSize`.
 * `sink_done`            -- on every stream every level returns: the run ends with `pcp_server()`
                            finished (termination itself is Lean's check: `run` is a fold over the stream).
 * `malformed_answered`   -- a record the parser rejects is answered with the corresponding
@@ -66,7 +71,12 @@ initial file system and every option setting.
 | objects of static storage            | `copyright[]`, `rcsid[]`       | never written; the check lists the object file's data/bss symbols on every run (`nm`, `static_objects`) and fails when there is one the model does not know |
 
 Not proved here: memory safety of the compiled C beyond the index obligations above (ASan/UBSan on the harness
-side: every case of the check runs the real `pcp_server()` under both).
+side: every case of the check runs the real `pcp_server()` under both).  System calls that FAIL or are CUT SHORT
+(`read` interrupted or short, `write` interrupted or short, `open` EMFILE, `fstat` EIO) are outside the model -- its
+`read` delivers the stream, its writes fail only at a file size limit --: the check injects each of them at every
+call index of a pinned stream and applies the oracles (no crash, no sanitizer report, no hang, nothing outside DEST,
+and nothing acknowledged that was not written); short reads and scripted block sizes are ALSO compared with the model,
+which they must not change.
 -/
 namespace PdshVerif.Props.C12
 open PdshVerif.Pcp
@@ -295,6 +305,16 @@ NUL), the joined name in `namebuf[need]`, the data block in `bp->buf[cnt]`; `cnt
 multiple of `BUFSIZ` (`_allocbuf`: `roundup(st_blksize, BUFSIZ)`, or `BUFSIZ`). -/
 theorem reader_in_bounds (o : Opts) (hc : CntOk o) (fs : FS) (stream : Str) : (run o fs stream).ub = false :=
   (inv_run o hc fs stream).1.ub
+
+/-- **... whatever block size the destination's file system reports**: `bp->cnt` is what `_allocbuf` computes from
+`st_blksize` (Pcp/Allocbuf.lean `allocSize`: `roundup(st_blksize, BUFSIZ)`, BUFSIZ when that is 0) -- a positive multiple
+of BUFSIZ for EVERY `st_blksize` (0, 512, 4096, 9216, 65536, 1 MiB, ...), so `reader_in_bounds` has no hypothesis left
+about the environment.  (`max_is_not_enough`: with `max(st_blksize, BUFSIZ)` it would have.) -/
+theorem reader_in_bounds_any_blksize (o : Opts) (blk : Nat) (hcnt : o.cnt = allocSize blk BUFSZ) (fs : FS) (stream : Str) :
+    (run o fs stream).ub = false ∧ (run o fs stream).phase = .done :=
+  ⟨(inv_run o (allocbuf_cntOk o blk hcnt) fs stream).1.ub, (inv_run o (allocbuf_cntOk o blk hcnt) fs stream).2⟩
+
+example : (wopts .none).cnt = allocSize 4096 BUFSZ := by decide
 
 /-- **Every run ends with all levels returned** (`run` is total by construction: one `step` per
 input byte, then `finish`). -/
